@@ -198,7 +198,10 @@ func c09ShowCCFB(fb *rtcp.CCFeedbackReport, ref time.Time) string {
 
 func c09RunAdapter(t *testing.T, ops []string, o *Out) {
 	fa := verifhooks.NewFeedbackAdapter()
+	// the acknowledgment slices the adapter returned are the caller's: kept and re-rendered after every later op
+	defer o.EndKept()
 	for _, op := range ops {
+		o.CheckKept()
 		name, m := kv(op)
 		switch name {
 		case "sent": // sent tw=<seq> size= t=   |  sent ssrc= seq= size= t=
@@ -224,7 +227,7 @@ func c09RunAdapter(t *testing.T, ops []string, o *Out) {
 				o.P("ok")
 			}
 		default:
-			if !c09AdapterFeedbackOp(fa, name, m, o.P) {
+			if !c09AdapterFeedbackOp(fa, name, m, o.P, o) {
 				o.P("bad-op")
 			}
 		}
@@ -240,11 +243,33 @@ func c09PrintAcks(P func(string, ...any), acks []verifhooks.Acknowledgment) {
 }
 
 // c09AdapterFeedbackOp executes the ops of `fbadapter` that READ the adapter (twcc, ccfb, len); false = not one of them.
-func c09AdapterFeedbackOp(fa *verifhooks.FeedbackAdapter, name string, m map[string]string, P func(string, ...any)) bool {
+func c09AdapterFeedbackOp(fa *verifhooks.FeedbackAdapter, name string, m map[string]string, P func(string, ...any), keep ...*Out) bool {
 	printAcks := func(acks []verifhooks.Acknowledgment) {
 		P("acks n=%d", len(acks))
 		for _, a := range acks {
 			P("a seq=%d ssrc=%d size=%d dep=%s arr=%s ecn=%d", a.SequenceNumber, a.SSRC, a.Size, c09ZS(a.Departure), c09ZS(a.Arrival), a.ECN)
+		}
+		if len(keep) > 0 && len(acks) > 0 {
+			o := keep[0]
+			o.KeepFast(fmt.Sprintf("acks#%d", o.KeptN()+1), 8*len(acks), func() uint64 {
+				h := keptFNVInit
+				for i := range acks {
+					a := &acks[i]
+					h = keptMix(h, uint64(a.SSRC)<<32|uint64(a.SequenceNumber)<<8|uint64(a.ECN))
+					h = keptMix(h, uint64(a.Size))
+					h = keptMix(h, uint64(a.Departure.Unix()))
+					h = keptMix(h, uint64(a.Departure.Nanosecond()))
+					h = keptMix(h, uint64(a.Arrival.Unix()))
+					h = keptMix(h, uint64(a.Arrival.Nanosecond()))
+				}
+				return keptMix(h, uint64(len(acks)))
+			}, func() string {
+				var sb strings.Builder
+				for _, a := range acks {
+					fmt.Fprintf(&sb, "%d/%d/%d/%s/%s/%d;", a.SequenceNumber, a.SSRC, a.Size, c09ZS(a.Departure), c09ZS(a.Arrival), a.ECN)
+				}
+				return sb.String()
+			})
 		}
 	}
 	switch name {
@@ -320,6 +345,17 @@ func c09RunRtpfb(t *testing.T, ops []string, o *Out) {
 		peers[i] = &c09Peer{ic: ic, hist: rtpfb.VerifHistoryOf(ic), writers: map[c09WKey]interceptor.RTPWriter{}, wants: map[c09WantKey]time.Time{}}
 	}
 	payload := make([]byte, 1500)
+	// a []PacketReport handed to the application (attached to the RTCP attributes) is the application's: it may queue
+	// the report for its congestion controller.  Kept as the slice itself, re-rendered after every later op of either
+	// peer (retain_test.go).
+	defer o.EndKept()
+	nRep := 0
+	keepReports := func(who int, prs []rtpfb.PacketReport) {
+		nRep++
+		if len(prs) > 0 {
+			o.KeepFast(fmt.Sprintf("peer%d/report#%d", who, nRep), 8*len(prs), func() uint64 { return c09HashReports(prs) }, func() string { return c09RenderReports(prs) })
+		}
+	}
 	showAck := func(a rtpfb.VerifAck) string {
 		ar := 0
 		if a.Arrived {
@@ -334,6 +370,7 @@ func c09RunRtpfb(t *testing.T, ops []string, o *Out) {
 		return c09ZS(verifhooks.ToTime32(fb.ReportTimestamp, ts)) == ref
 	}
 	for _, fullOp := range ops {
+		o.CheckKept()
 		op, who := twinOp(fullOp)
 		pe := peers[who]
 		P := func(format string, a ...any) { o.PW(who, format, a...) }
@@ -478,6 +515,7 @@ func c09RunRtpfb(t *testing.T, ops []string, o *Out) {
 			}
 			P("report rtt=%d n=%d", int64(rtt), len(prs))
 			showReports(prs)
+			keepReports(who, prs)
 			for _, p := range prs {
 				// the decoded arrival instant is the one the remote peer recorded (on the remote clock), to
 				// within the resolution of the format — however far the two clocks are apart
@@ -505,6 +543,7 @@ func c09RunRtpfb(t *testing.T, ops []string, o *Out) {
 			prs := pe.hist.BuildReport()
 			P("built n=%d", len(prs))
 			showReports(prs)
+			keepReports(who, prs)
 		case "hsizes":
 			p, tw, ss := pe.hist.Sizes()
 			P("sizes packets=%d twcc=%d ssrcseq=%d", p, tw, ss)
@@ -512,6 +551,38 @@ func c09RunRtpfb(t *testing.T, ops []string, o *Out) {
 			P("bad-op")
 		}
 	}
+}
+
+// c09HashReports fingerprints every field of every entry of a report slice.
+func c09HashReports(prs []rtpfb.PacketReport) uint64 {
+	h := keptFNVInit
+	b := func(x bool) uint64 {
+		if x {
+			return 1
+		}
+		return 0
+	}
+	for i := range prs {
+		p := &prs[i]
+		h = keptMix(h, p.SequenceNumber)
+		h = keptMix(h, uint64(p.SSRC)<<32|uint64(p.RTPSequenceNumber)<<16|uint64(p.TWCCSequenceNumber))
+		h = keptMix(h, uint64(p.Size)<<8|b(p.IsTWCC)<<1|b(p.Arrived)|uint64(p.ECN)<<2)
+		h = keptMix(h, uint64(p.Departure.Unix()))
+		h = keptMix(h, uint64(p.Departure.Nanosecond()))
+		h = keptMix(h, uint64(p.Arrival.Unix()))
+		h = keptMix(h, uint64(p.Arrival.Nanosecond()))
+	}
+	return keptMix(h, uint64(len(prs)))
+}
+
+// c09RenderReports renders a report slice for the kept-output check (all fields of all entries).
+func c09RenderReports(prs []rtpfb.PacketReport) string {
+	var sb strings.Builder
+	for _, p := range prs {
+		fmt.Fprintf(&sb, "%d/%d/%d/%v/%d/%d/%s/%v/%s/%d;", p.SequenceNumber, p.SSRC, p.RTPSequenceNumber, p.IsTWCC, p.TWCCSequenceNumber,
+			p.Size, c09ZS(p.Departure), p.Arrived, c09ZS(p.Arrival), p.ECN)
+	}
+	return sb.String()
 }
 
 // ---- generators
